@@ -123,6 +123,9 @@ cell_h!(c05_cell_f32_at8, Float32, 8);
 cell_h!(c05_cell_i64_at0, Int64, 0);
 cell_h!(c05_cell_u64_at5, UInt64, 5);
 cell_h!(c05_cell_u64_at8, UInt64, 8);
+// one more offset chosen by VERIF_SEED (gen/params.rs)
+cell_h!(c05_cell_u32_seeded_offset, UInt32, { crate::verif_support::params::CELL_OFF });
+cell_h!(c05_cell_packed5_seeded_offset, PackedBool5, { crate::verif_support::params::CELL_OFF });
 
 /// several columns in one row: each cell is read at its own offset, in column order
 #[kani::proof]
